@@ -235,6 +235,10 @@ func init() {
 			if err != nil {
 				if !bytes.Equal(c19EdBytes(p), c19IdentityEd) {
 					r.Fail(name+":receiver-not-identity-after-error", "in=%x receiver=%x", a[0], c19EdBytes(p))
+				} else if B := curve.ED25519_BASEPOINT_POINT; !bytes.Equal(c19EdBytes(curve.NewEdwardsPoint().Add(B, p)), c19EdBytes(B)) ||
+					!bytes.Equal(c19EdBytes(curve.NewEdwardsPoint().Add(p, p)), c19IdentityEd) {
+					// the neutral state must be the identity in every coordinate, not only in the encoded ones
+					r.Fail(name+":receiver-encodes-as-identity-but-does-not-act-as-identity", "in=%x: B + receiver != B", a[0])
 				}
 			} else if !bytes.Equal(c19EdBytes(p), di.P.Encode()) {
 				r.Fail(name+":wrong-point", "in=%x got=%x want=%x", a[0], c19EdBytes(p), di.P.Encode())
@@ -273,6 +277,12 @@ func init() {
 			out, _ := p.MarshalBinary()
 			if err != nil && !bytes.Equal(out, make([]byte, 32)) {
 				r.Fail(name+":receiver-not-identity-after-error", "in=%x receiver=%x", a[0], out)
+			} else if err != nil {
+				bb, _ := curve.RISTRETTO_BASEPOINT_POINT.MarshalBinary()
+				sum, _ := curve.NewRistrettoPoint().Add(curve.RISTRETTO_BASEPOINT_POINT, p).MarshalBinary()
+				if !bytes.Equal(sum, bb) {
+					r.Fail(name+":receiver-encodes-as-identity-but-does-not-act-as-identity", "in=%x: B + receiver != B", a[0])
+				}
 			}
 			if err == nil && !bytes.Equal(out, a[0]) {
 				r.Fail(name+":roundtrip", "in=%x out=%x", a[0], out)
